@@ -412,6 +412,9 @@ int reb_simulation_remove_particle(struct reb_simulation* const r, int index, in
 
 	if (r->N==1){
 	    r->N = 0;
+        if(index<r->N_active){
+            r->N_active--;
+        }
         if(r->free_particle_ap){
             r->free_particle_ap(&r->particles[index]);
         }
@@ -444,6 +447,13 @@ int reb_simulation_remove_particle(struct reb_simulation* const r, int index, in
 	        r->N--;
             if(r->free_particle_ap){
                 r->free_particle_ap(&r->particles[index]);
+            }
+            if(index<r->N_active){
+                // An active particle is removed. Keep the active particles contiguous:
+                // the last active particle fills the hole, the last particle fills its slot.
+                r->N_active--;
+                r->particles[index] = r->particles[r->N_active];
+                index = r->N_active;
             }
 		    r->particles[index] = r->particles[r->N];
         }
